@@ -7,7 +7,7 @@ import idlgen as g
 
 PID = "C14"
 HEADER = ("From Coq Require Import List NArith.\nImport ListNotations.\n"
-          "From ZV Require Import Common.Exec Idl.Idl Idl.IdlParse Idl.IdlExec.\n"
+          "From ZV Require Import Common.Exec Idl.Idl Idl.IdlParse Idl.IdlExec Idl.IdlNormal Idl.IdlDesc Idl.IdlDescExec.\n"
           "Open Scope N_scope.\nSet Printing Width 1000000.\n")
 CLASS = {"ok": 0, "err": 1, "panic": 2}
 SIG = "C14.commented_enum_variant"
@@ -37,6 +37,9 @@ def gen_cases(ck):
         add(g.gen_build_tree(rng, "wild"), "wild")
     for i in range(300 if quick else 5000):
         add(g.one_fault_tree(rng), "one_fault")
+    # comments shaped as the derive macros produce them (leading blank, empty)
+    for i in range(300 if quick else 5000):
+        add(g.derive_shaped(rng, g.gen_build_tree(rng, "wf_nocommentedenum")), "derive_shaped")
     # one member of each kind around every type shape up to depth 3
     import c13 as c13mod
     for t in c13mod.small_types(2 if quick else 3):
@@ -69,13 +72,14 @@ def opt_tree(rep):
 def render_case(c, r):
     p, d, s = r["parse"], r["desc"], r.get("socket")
     pt = opt_tree(p)
-    return "(mkB %s %s %d %s %s %s %d %s %d %s)" % (
+    return "(mkD (mkB %s %s %d %s %s %s %d %s %d %s) %s)" % (
         g.cq_interface(g.from_wire(c["tree"])), g.cq_bytes(bytes.fromhex(r["display"])),
         CLASS.get(p["class"], 7), g.cq_opt_interface(pt),
         g.cq_bytes(bytes.fromhex(p["display"])) if pt is not None else "[]",
         "true" if (pt is not None and all(p["lib_eq"])) else "false",
         CLASS.get(d["class"], 5), g.cq_opt_interface(opt_tree(d)),
-        9 if s is None else CLASS.get(s["class"], 6), g.cq_opt_interface(opt_tree(s) if s else None))
+        9 if s is None else CLASS.get(s["class"], 6), g.cq_opt_interface(opt_tree(s) if s else None),
+        g.cq_bytes(bytes.fromhex(r.get("desc_json", ""))))
 
 
 def main():
@@ -85,7 +89,12 @@ def main():
         ck.proof_ok, ck.broken, ck.proof_log = False, "translator idl_keywords.py: " + out.strip()[-300:], out
     else:
         ck.samples.append("translated: " + out.strip())
-        ck.prove(["gen/IdlKeywords.v", "Idl/IdlExec.v"], "props/C14.v")
+        rc2, out2 = sh([sys.executable, os.path.join(VERIF, "translate", "escape.py")])
+        if rc2 != 0:
+            ck.proof_ok, ck.broken, ck.proof_log = False, "translator escape.py: " + out2.strip()[-300:], out2
+        else:
+            ck.samples.append("translated: " + out2.strip()[:200])
+            ck.prove(["gen/IdlKeywords.v", "gen/Escape.v", "Idl/IdlDescExec.v"], "props/C14.v")
 
     ok, log = ck.harness_build(["idl"])
     if not ok:
@@ -121,7 +130,7 @@ def main():
                          {"case": c, "impl": r}, tag="f%d" % c["id"])
         items.append((c, r))
     try:
-        bad = ck.coq_eval("cases", HEADER, items, lambda it: render_case(it[0], it[1]), per_shard=80, fn="bcheck")
+        bad = ck.coq_eval("cases", HEADER, items, lambda it: render_case(it[0], it[1]), per_shard=80, fn="dcheck")
     except RuntimeError as e:
         ck.violation("model evaluation failed: " + str(e)[:300], {"log": str(e)}, tag="eval", no_input=True)
         bad = {}
@@ -147,7 +156,7 @@ def main():
         if shown >= 12:
             continue
         shown += 1
-        replay["model_view(render,class,tree,wf,known)"] = ck.coq_show(HEADER, "bmodel_view %s" % render_case(c, r))
+        replay["model_view(render,parse class,description class,wf_nl,wf,known,normalise=id)"] = ck.coq_show(HEADER, "dmodel_view %s" % render_case(c, r))
         if code & 2:
             ck.violation("round trip violated: rendering %r, parse class %s, description path %s" % (
                 text[:120], r["parse"]["class"], r["desc"]["class"]), replay, tag="c%d" % c["id"])
@@ -182,8 +191,10 @@ def main():
     ck.assumptions += [
         "render (Idl/Idl.v) is a hand transcription of the Display impls; its tie is byte equality with "
         "to_string() of values built through the public constructors (owned and borrowed forms) on every case",
-        "the JSON string escaping of the description (serializer / serde_json) is exercised end to end but not "
-        "modelled here (C03's subject)",
+        "the JSON string printer is C03's reference encoding (Ser/SerdeModel.v ref_string, proved equal to "
+        "json_ser.rs's output there); here it is additionally compared byte for byte with "
+        "serde_json::to_string of the InterfaceDescription on every case; the JSON string reader is a hand "
+        "transcription of serde_json's parse_str/parse_escape, tied by the deserialize -> parse results",
         "descriptions produced by the derive macros are not part of this check's inputs (C16's corpus)",
     ]
     ck.finish(rule="a case = one description tree built through the constructors; distinct by hash of the tree; "
